@@ -165,6 +165,22 @@ class RngLog:
         def arr(x):
             return None if x is None else [float(v) for v in np.asarray(x, dtype=float).ravel()]
 
+        from gradient_free_optimizers.optimizers.core_optimizer.core_optimizer import CoreOptimizer
+        orig_c2p = CoreOptimizer.__dict__["conv2pos"]
+        self.saved.append((CoreOptimizer, "conv2pos", orig_c2p))
+
+        def c2p(this, pos_, *a, **k):
+            self.log.append(("capture", "conv2pos", (), dict(vector=arr(pos_))))
+            return orig_c2p(this, pos_, *a, **k)
+        CoreOptimizer.conv2pos = c2p
+        from gradient_free_optimizers.optimizers.core_optimizer.converter import Converter
+        orig_nic = Converter.__dict__["not_in_constraint"]
+        self.saved.append((Converter, "not_in_constraint", orig_nic))
+
+        def nic(this, pos_, *a, **k):
+            self.log.append(("capture", "not_in_constraint", (), dict(vector=arr(pos_), conv_id=id(this))))
+            return orig_nic(this, pos_, *a, **k)
+        Converter.not_in_constraint = nic
         orig_ml = Particle.__dict__["move_linear"]
         self.saved.append((Particle, "move_linear", orig_ml))
 
